@@ -42,6 +42,17 @@ def cells_for(tier, prop):
                     if hint is not None and B < 3 and tier == "quick":
                         continue
                     out.append(dict(NC=NC, B=B, winner=winner, fn=fn, hint=hint))
+    # two consecutive searches in one process on two different symbolic profiles (same contest name, same number of ballots):
+    # results must not carry over between calls
+    for winner in cands:
+        for fn in ("cp_estimate", "bp_estimate"):
+            for warm in ([["A", "B", "C"], ["A", "B", "C"], ["B", "A"]], [["C", "B"], ["B"], ["C", "A", "B"]]):
+                out.append(dict(NC=3, B=3, winner=winner, fn=fn, hint=None, repeat=warm))
+    if tier != "quick":
+        for winner in ["A", "B"]:
+            for fn in ("cp_estimate", "bp_estimate"):
+                for hint in (None, ["D", "C", "B", "A"], ["A", "B", "C", "D"]):
+                    out.append(dict(NC=4, B=2, winner=winner, fn=fn, hint=hint))
     return out
 
 
@@ -106,17 +117,24 @@ def run_cell(cell, want):
     gcache = {}          # leaf-predicate summaries, computed once under the ballot preconditions and reused on every path
 
     def harness(ex):
-        idxs = [ballot_vars(ex, cands, tag=f"b{b}") for b in range(B)]
-        # ballots are interchangeable: order them (symmetry breaking on a numeric key of the ranking)
-        keys = [z3.Sum([(ix[c] + 1) * (NC + 1) ** i for i, c in enumerate(cands)]) for ix in idxs]
-        for k1, k2 in zip(keys, keys[1:]):
-            ex.assume(k1 <= k2)
-        cvrs = {f"b{b}": {"c": SymBallot(idxs[b])} for b in range(B)}
-        base0 = list(ex.pc)          # only the preconditions on the ballots have been assumed so far
+        profiles = []
         bid = {}
-        for b in range(B):
-            bid[id(cvrs[f"b{b}"])] = ("cvr", b)
-            bid[id(cvrs[f"b{b}"]["c"])] = ("ballot", b)
+        if cell.get("repeat"):
+            # first call: a fixed concrete profile (same contest name, same number of ballots)
+            warm_cvrs = {f"b{b}": {"c": {c: i for i, c in enumerate(rk)}} for b, rk in enumerate(cell["repeat"])}
+            profiles.append((None, warm_cvrs))
+        for pno in range(1):
+            idxs_ = [ballot_vars(ex, cands, tag=f"p{pno}b{b}") for b in range(B)]
+            # ballots are interchangeable: order them (symmetry breaking on a numeric key of the ranking)
+            keys = [z3.Sum([(ix[c] + 1) * (NC + 1) ** i for i, c in enumerate(cands)]) for ix in idxs_]
+            for k1, k2 in zip(keys, keys[1:]):
+                ex.assume(k1 <= k2)
+            cvrs_ = {f"b{b}": {"c": SymBallot(idxs_[b])} for b in range(B)}
+            for b in range(B):
+                bid[id(cvrs_[f"b{b}"])] = ("cvr", pno, b)
+                bid[id(cvrs_[f"b{b}"]["c"])] = ("ballot", pno, b)
+            profiles.append((idxs_, cvrs_))
+        base0 = list(ex.pc)          # only the preconditions on the ballots have been assumed so far
 
         def memo(fn, name):
             def w(*a):
@@ -141,14 +159,18 @@ def run_cell(cell, want):
             tl = concretize_int(tl) if isinstance(tl, SV) else tl
             return real_fn(tw, tl, total - tw - tl, total)
 
+        def rank_of(m, ixs):
+            return [[c for _, c in sorted((model_value(m, v), c) for c, v in ix.items() if model_value(m, v) >= 0)] for ix in ixs]
+
         def inputs(m):
-            out = []
-            for ix in idxs:
-                out.append([c for _, c in sorted((model_value(m, v), c) for c, v in ix.items() if model_value(m, v) >= 0)])
-            return dict(ballots=out)
+            d = dict(ballots=rank_of(m, profiles[-1][0]))
+            if cell.get("repeat"):
+                d["previous_call_ballots"] = cell["repeat"]
+            return d
         con = RU.Contest("c", list(cands), winner, B, order=list(cell["hint"]) if cell["hint"] else [])
         try:
-            res = R_.compute_raire_assertions(con, cvrs, winner, asn_func, False, agap=0)
+            for idxs, cvrs in profiles:
+                res = R_.compute_raire_assertions(con, cvrs, winner, asn_func, False, agap=0)
         except core.PathAbort:
             raise
         except Exception as e:      # noqa
@@ -269,8 +291,12 @@ def replay(f, want):
     bad = []
     try:
         # a call on a different profile first: results must not carry over between calls
-        warm = {f"w{b}": {"c": {c: i for i, c in enumerate(reversed(cands))}} for b in range(B)}
-        R_.compute_raire_assertions(RU.Contest("c", list(cands), cands[0], B, order=[]), warm, cands[0], fn, False, agap=0)
+        if inp.get("previous_call_ballots"):
+            warm = {f"w{b}": {"c": {c: i for i, c in enumerate(rk)}} for b, rk in enumerate(inp["previous_call_ballots"])}
+            R_.compute_raire_assertions(RU.Contest("c", list(cands), winner, B, order=[]), warm, winner, fn, False, agap=0)
+        else:
+            warm = {f"w{b}": {"c": {c: i for i, c in enumerate(reversed(cands))}} for b in range(B)}
+            R_.compute_raire_assertions(RU.Contest("c", list(cands), cands[0], B, order=[]), warm, cands[0], fn, False, agap=0)
         con = RU.Contest("c", list(cands), winner, B, order=list(cell["hint"]) if cell["hint"] else [])
         res = R_.compute_raire_assertions(con, cvrs, winner, fn, False, agap=0)
     except Exception as e:      # noqa
